@@ -527,6 +527,48 @@ Proof. unfold upd. intros H. apply Nat.eqb_neq in H. rewrite H. reflexivity. Qed
 Lemma run_app debug ops s a b : run debug ops s (a ++ b) = run debug ops (run debug ops s a) b.
 Proof. unfold run. apply fold_left_app. Qed.
 
+(* ---- the compile step: nothing but the progress counter changes, or it is the step that ends the load *)
+
+Definition same_core (a b : st) : Prop :=
+  fs a = fs b /\ loaded a = loaded b /\ tpls a = tpls b /\ wlock a = wlock b /\ pcs a = pcs b.
+
+Lemma same_core_refl s : same_core s s.
+Proof. repeat split. Qed.
+
+Lemma compile_ev_cases debug ops s i :
+  (same_core (compile_ev debug ops s i) s /\
+   (compile_ev debug ops s i = s \/
+    (pcs s i = PLocked /\ prog s < load_calls debug (filter_of debug (ops i)) (fs s) /\
+     compile_ev debug ops s i = set_prog s (S (prog s))))) \/
+  (pcs s i = PLocked /\ step debug ops s i = Some (compile_ev debug ops s i)).
+Proof.
+  unfold compile_ev, step. destruct (pcs s i) eqn:Epc; try (left; split; [apply same_core_refl|left; reflexivity]).
+  destruct (prog s <? load_calls debug (filter_of debug (ops i)) (fs s)) eqn:El.
+  - left. split; [repeat split|]. right. apply Nat.ltb_lt in El. auto.
+  - right. split; reflexivity.
+Qed.
+
+Lemma calls_upto_le d f names : calls_upto d f names <= length names.
+Proof.
+  induction names as [|[n k] r IH]; simpl; [lia|].
+  destruct (prefixb f n); [|lia]. destruct (compile_file d k); lia.
+Qed.
+
+Lemma load_calls_le d f t : load_calls d f t <= length (tnames t).
+Proof. apply calls_upto_le. Qed.
+
+(* on a tree that compiles under the filter, the load calls FuncProvider once per selected file *)
+Lemma calls_upto_good d f names :
+  (forall x k, In (x, k) names -> prefixb f x = true -> exists t, compile_file d k = COk t) ->
+  calls_upto d f names = length (filter (fun nk => prefixb f (fst nk)) names).
+Proof.
+  induction names as [|[n k] r IH]; intros H; simpl; [reflexivity|].
+  destruct (prefixb f n) eqn:Ep.
+  - destruct (H n k (or_introl eq_refl) Ep) as [t ->]. simpl. f_equal. apply IH.
+    intros x k0 Hi. apply H. right; exact Hi.
+  - apply IH. intros x k0 Hi. apply H. right; exact Hi.
+Qed.
+
 Section Machine.
   Variable debug : bool.
   Variable ops : nat -> op.
@@ -622,9 +664,13 @@ Section Machine.
 
   Lemma inv_apply s e : lock_inv s -> lock_inv (apply_ev debug ops s e).
   Proof.
-    intros I. destruct e as [i|t]; simpl.
+    intros I. destruct e as [i|t|i]; simpl.
     - destruct (step debug ops s i) eqn:E; [eapply inv_step; eauto|exact I].
     - apply inv_set_fs; exact I.
+    - destruct (compile_ev_cases debug ops s i) as [[_ [E|[_ [_ E]]]]|[_ E]].
+      + rewrite E. exact I.
+      + rewrite E. exact I.
+      + eapply inv_step; eauto.
   Qed.
 
   Lemma inv_run evs : forall s, lock_inv s -> lock_inv (run debug ops s evs).
@@ -713,25 +759,6 @@ Section Machine.
     - discriminate.
   Qed.
 
-  (* every thread takes at most four steps, whatever the schedule *)
-  Lemma steps_bounded evs : forall s i,
-    eff_steps debug ops s evs i + rank (pcs (run debug ops s evs) i) <= rank (pcs s i).
-  Proof.
-    induction evs as [|e evs IH]; intros s i; simpl; [lia|].
-    specialize (IH (apply_ev debug ops s e) i).
-    destruct e as [j|t]; simpl in *.
-    - destruct (Nat.eqb j i) eqn:Eji.
-      + apply Nat.eqb_eq in Eji; subst j.
-        destruct (step debug ops s i) as [s'|] eqn:Es.
-        * destruct (step_rank _ _ _ Es) as [H _]. lia.
-        * lia.
-      + apply Nat.eqb_neq in Eji.
-        destruct (step debug ops s j) as [s'|] eqn:Es.
-        * destruct (step_rank _ _ _ Es) as [_ H]. rewrite (H i) in IH by congruence. lia.
-        * lia.
-    - lia.
-  Qed.
-
   (* ---- what a step can do to the template set *)
   Lemma step_tpls s i s' :
     step debug ops s i = Some s' ->
@@ -777,6 +804,101 @@ Section Machine.
     - discriminate.
   Qed.
 
+  (* ---- termination: a call takes at most four steps of its own plus one per file of its load *)
+
+  Lemma step_prog_other s j s' i :
+    lock_inv s -> step debug ops s j = Some s' -> pcs s i = PLocked -> i <> j -> prog s' = prog s.
+  Proof.
+    intros [I1 _] Hs Hi Hn. pose proof (proj1 (I1 i) Hi) as Hw.
+    unfold step, lock_free in Hs. rewrite Hw in Hs.
+    destruct (pcs s j) eqn:Epc; try discriminate.
+    - destruct (ops j); [destruct debug|]; try discriminate. inversion Hs; subst. reflexivity.
+    - apply I1 in Epc. congruence.
+  Qed.
+
+  Lemma step_rankN N s i s' :
+    step debug ops s i = Some s' -> rankN N s' i < rankN N s i.
+  Proof.
+    unfold step, rankN. destruct (pcs s i) eqn:Epc.
+    - assert (E : forall f, match pcs (enter_load s i f) i with
+                            | PStart => N + 4 | PAfterCheck => N + 3
+                            | PLocked => 2 + (N - prog (enter_load s i f)) | PAfterLoad => 1 | PDone _ => 0
+                            end < N + 4).
+      { intros f. unfold enter_load. destruct (loaded s && is_empty f); simpl; rewrite upd_same; lia. }
+      destruct (ops i) as [n|f].
+      + destruct debug.
+        * destruct (lock_free s); [|discriminate]. intros H; inversion H; subst. apply E.
+        * intros H; inversion H; subst. simpl. rewrite upd_same. destruct (loaded s); lia.
+      + destruct (lock_free s); [|discriminate]. intros H; inversion H; subst. apply E.
+    - destruct (lock_free s); [|discriminate]. intros H; inversion H; subst.
+      destruct (loaded s) eqn:El.
+      + simpl. rewrite upd_same. lia.
+      + unfold enter_load. rewrite El. simpl. rewrite upd_same. lia.
+    - intros H; inversion H; subst. destruct (finish_load_pcs s i) as [H1 _].
+      destruct (pcs (finish_load debug ops s i) i); simpl in H1; lia.
+    - destruct (lock_free s); [|discriminate]. intros H; inversion H; subst.
+      simpl. rewrite upd_same. lia.
+    - discriminate.
+  Qed.
+
+  Definition trees_le (N : nat) (evs : list ev) : Prop :=
+    Forall (fun e => match e with EFs t => length (tnames t) <= N | _ => True end) evs.
+
+  Lemma steps_boundedN N evs : forall s i,
+    lock_inv s -> length (tnames (fs s)) <= N -> trees_le N evs ->
+    eff_steps debug ops s evs i + rankN N (run debug ops s evs) i <= rankN N s i.
+  Proof.
+    induction evs as [|e evs IH]; intros s i I Hfs HT; simpl; [lia|].
+    inversion HT as [|? ? He HT']; subst.
+    assert (Other : forall j s', step debug ops s j = Some s' -> j <> i -> rankN N s' i = rankN N s i).
+    { intros j s' Es Hn. destruct (step_rank _ _ _ Es) as [_ Hsame].
+      unfold rankN. rewrite (Hsame i) by congruence.
+      destruct (pcs s i) eqn:Epc; try reflexivity.
+      rewrite (step_prog_other s j s' i I Es Epc); [reflexivity|congruence]. }
+    destruct e as [j|t|j]; simpl.
+    - destruct (step debug ops s j) as [s'|] eqn:Es.
+      + assert (I' : lock_inv s') by (eapply inv_step; eauto).
+        assert (Hfs' : length (tnames (fs s')) <= N) by (rewrite (step_fs _ _ _ Es); exact Hfs).
+        specialize (IH s' i I' Hfs' HT').
+        destruct (Nat.eqb j i) eqn:Eji.
+        * apply Nat.eqb_eq in Eji; subst j. pose proof (step_rankN N _ _ _ Es). lia.
+        * apply Nat.eqb_neq in Eji. rewrite <- (Other j s' Es Eji). lia.
+      + specialize (IH s i I Hfs HT'). destruct (Nat.eqb j i); lia.
+    - specialize (IH (set_fs s t) i (inv_set_fs s t I) He HT'). exact IH.
+    - destruct (compile_ev_cases debug ops s j) as [[_ [E|[Hp [Hlt E]]]]|[Hp E]].
+      + rewrite E. specialize (IH s i I Hfs HT').
+        assert (pcs s j <> PLocked \/ pcs s j = PLocked) as [Hq|Hq]
+          by (destruct (pcs s j); auto; left; discriminate).
+        * destruct (Nat.eqb j i); [|lia]. destruct (pcs s j); try lia. contradiction.
+        * (* the event did nothing although j is inside a load: impossible *)
+          exfalso. unfold compile_ev in E. rewrite Hq in E.
+          destruct (prog s <? load_calls debug (filter_of debug (ops j)) (fs s)).
+          -- apply (f_equal prog) in E. simpl in E. lia.
+          -- apply (f_equal (fun x => pcs x j)) in E. rewrite Hq in E.
+             destruct (finish_load_pcs s j) as [H1 _]. rewrite E in H1. simpl in H1. lia.
+      + rewrite E.
+        assert (I' : lock_inv (set_prog s (S (prog s)))) by exact I.
+        specialize (IH (set_prog s (S (prog s))) i I' Hfs HT').
+        pose proof (load_calls_le debug (filter_of debug (ops j)) (fs s)) as Hle.
+        destruct (Nat.eqb j i) eqn:Eji.
+        * apply Nat.eqb_eq in Eji; subst j. rewrite Hp.
+          assert (rankN N (set_prog s (S (prog s))) i < rankN N s i).
+          { unfold rankN. simpl. rewrite Hp. lia. }
+          lia.
+        * apply Nat.eqb_neq in Eji.
+          assert (rankN N (set_prog s (S (prog s))) i = rankN N s i).
+          { unfold rankN. simpl. destruct (pcs s i) eqn:Epc; try reflexivity.
+            exfalso. destruct I as [I1 _]. apply I1 in Epc. apply I1 in Hp. congruence. }
+          lia.
+      + assert (I' : lock_inv (compile_ev debug ops s j)) by (eapply inv_step; eauto).
+        assert (Hfs' : length (tnames (fs (compile_ev debug ops s j))) <= N)
+          by (rewrite (step_fs _ _ _ E); exact Hfs).
+        specialize (IH _ i I' Hfs' HT').
+        destruct (Nat.eqb j i) eqn:Eji.
+        * apply Nat.eqb_eq in Eji; subst j. rewrite Hp. pose proof (step_rankN N _ _ _ E). lia.
+        * apply Nat.eqb_neq in Eji. rewrite <- (Other j _ E Eji). lia.
+  Qed.
+
   (* ---- a failed load: reported, flag back, lock free, templates untouched *)
   Lemma failed_load_step s i :
     pcs s i = PLocked ->
@@ -801,7 +923,7 @@ Section Machine.
 
   Lemma enter_load_fresh s j f :
     loaded s && is_empty f = false ->
-    enter_load s j f = mkst (fs s) true (tpls s) (Some j) (upd (pcs s) j PLocked).
+    enter_load s j f = mkst (fs s) true (tpls s) (Some j) (upd (pcs s) j PLocked) 0.
   Proof. intros H. unfold enter_load. rewrite H. reflexivity. Qed.
 
   Lemma apply_step s j s' : step debug ops s j = Some s' -> apply_ev debug ops s (EStep j) = s'.
@@ -997,9 +1119,13 @@ Section Prod.
 
   Lemma prod_apply s e : prod_inv s -> prod_inv (apply_ev false ops s e).
   Proof.
-    intros P. destruct e as [i|t]; simpl.
+    intros P. destruct e as [i|t|i]; simpl.
     - destruct (step false ops s i) eqn:E; [eapply prod_step; eauto|exact P].
     - destruct P as [I P]. split; [apply inv_set_fs; exact I|exact P].
+    - destruct (compile_ev_cases false ops s i) as [[_ [E|[_ [_ E]]]]|[_ E]].
+      + rewrite E. exact P.
+      + rewrite E. exact P.
+      + eapply prod_step; eauto.
   Qed.
 
   Lemma prod_run evs s : prod_inv s -> prod_inv (run false ops s evs).
@@ -1008,11 +1134,14 @@ Section Prod.
   Lemma prod_once_apply s e m :
     prod_inv s -> tpls s = Some m -> tpls (apply_ev false ops s e) = Some m.
   Proof.
-    intros [I P] Ht. destruct e as [i|t]; simpl; [|exact Ht].
-    destruct (step false ops s i) as [s'|] eqn:Es; [|exact Ht].
-    destruct (step_tpls _ _ _ _ _ Es) as [H|[Hp _]]; [congruence|].
-    destruct I as [I1 _]. apply I1 in Hp.
-    assert (Hn : tpls s <> None) by congruence. apply P in Hn. destruct Hn; congruence.
+    intros [I P] Ht.
+    assert (G : forall i s', step false ops s i = Some s' -> tpls s' = Some m).
+    { intros i s' Es. destruct (step_tpls _ _ _ _ _ Es) as [H|[Hp _]]; [congruence|].
+      destruct I as [I1 _]. apply I1 in Hp.
+      assert (Hn : tpls s <> None) by congruence. apply P in Hn. destruct Hn; congruence. }
+    destruct e as [i|t|i]; simpl; [|exact Ht|].
+    - destruct (step false ops s i) as [s'|] eqn:Es; [|exact Ht]. eapply G; eauto.
+    - destruct (compile_ev_cases false ops s i) as [[[_ [_ [E _]]] _]|[_ E]]; [congruence|eapply G; eauto].
   Qed.
 
   (* load once: a template set, once in place, is never replaced, whatever happens to the files *)
@@ -1037,12 +1166,18 @@ Section Prod.
       + rewrite (prod_once_apply _ e m' P Et) in Ht. inversion Ht; subst m'.
         destruct (IH m eq_refl) as [e1 [e2 [-> Hc]]].
         exists e1, (e2 ++ [e]). split; [rewrite app_assoc; reflexivity|exact Hc].
-      + destruct e as [i|t]; simpl in Ht; [|congruence].
-        destruct (step false ops (run false ops (init t0) evs) i) as [s'|] eqn:Es; [|congruence].
-        destruct (step_tpls _ _ _ _ _ Es) as [H|[_ [m0 [Hc Hm]]]]; [congruence|].
-        rewrite Et, filt_nil in Hm. simpl in Hm. rewrite Ht in Hm. inversion Hm; subst m0.
-        rewrite filt_nil in Hc.
-        exists evs, [EStep i]. split; [reflexivity|exact Hc].
+      + assert (G : forall i s', step false ops (run false ops (init t0) evs) i = Some s' ->
+                      tpls s' = Some m ->
+                      compile_dir false [] (fs (run false ops (init t0) evs)) = COk m).
+        { intros i s' Es Hs'. destruct (step_tpls _ _ _ _ _ Es) as [H|[_ [m0 [Hc Hm]]]]; [congruence|].
+          rewrite Et, filt_nil in Hm. simpl in Hm. rewrite Hs' in Hm. inversion Hm; subst m0.
+          rewrite filt_nil in Hc. exact Hc. }
+        destruct e as [i|t|i]; simpl in Ht; [|congruence|].
+        * destruct (step false ops (run false ops (init t0) evs) i) as [s'|] eqn:Es; [|congruence].
+          exists evs, [EStep i]. split; [reflexivity|eapply G; eauto].
+        * destruct (compile_ev_cases false ops (run false ops (init t0) evs) i)
+            as [[[_ [_ [E _]]] _]|[_ E]]; [congruence|].
+          exists evs, [ECompile i]. split; [reflexivity|eapply G; eauto].
   Qed.
 
   (* every render that returned output read it from the one template set *)
@@ -1053,8 +1188,12 @@ Section Prod.
   Lemma renders_apply s e :
     prod_inv s -> renders_from_set s -> renders_from_set (apply_ev false ops s e).
   Proof.
-    intros P R. destruct e as [j|t]; simpl; [|exact R].
-    destruct (step false ops s j) as [s'|] eqn:Es; [|exact R].
+    intros P R.
+    assert (G : forall j s', step false ops s j = Some s' -> renders_from_set s');
+      [|destruct e as [j|t|j]; simpl; [destruct (step false ops s j) as [s'|] eqn:Es; [eapply G; eauto|exact R]|exact R|]].
+    2:{ destruct (compile_ev_cases false ops s j) as [[[_ [_ [Et [_ Ep]]]] _]|[_ E]]; [|eapply G; eauto].
+        intros i n out Ho Hp. rewrite Ep in Hp. rewrite Et. eapply R; eauto. }
+    intros j s' Es.
     intros i n out Ho Hp.
     destruct (Nat.eq_dec i j) as [->|Hn].
     - destruct (step_done_cases _ _ _ _ _ _ Es Hp) as [[Hpc [Hw [Ht Hr]]]|[[Hr _]|[_ [[Hr _]|[[Hr _]|[Hr _]]]]]];
@@ -1079,7 +1218,7 @@ Section Prod.
 
   (* ---- cold start: all trees of the history compile *)
   Definition good_ev (e : ev) : Prop :=
-    match e with EFs t => good_under false [] t = true | EStep _ => True end.
+    match e with EFs t => good_under false [] t = true | EStep _ | ECompile _ => True end.
 
   Definition result_fits (s : st) (o : op) (r : result) : Prop :=
     match o with
@@ -1092,10 +1231,9 @@ Section Prod.
     (forall i, pcs s i = PAfterLoad -> loaded s = true) /\
     (forall i r, pcs s i = PDone r -> result_fits s (ops i) r).
 
-  Lemma cold_apply s e : good_ev e -> cold_inv s -> cold_inv (apply_ev false ops s e).
+  Lemma cold_step s j s' : cold_inv s -> step false ops s j = Some s' -> cold_inv s'.
   Proof.
-    intros Hg [P [G [C3 C4]]]. destruct e as [j|t]; simpl.
-    - destruct (step false ops s j) as [s'|] eqn:Es; [|exact (conj P (conj G (conj C3 C4)))].
+    intros [P [G [C3 C4]]] Es.
       pose proof (prod_step _ _ _ P Es) as P'.
       pose proof (step_fs _ _ _ _ _ Es) as Hfs.
       destruct (step_rank _ _ _ _ _ Es) as [_ Hsame].
@@ -1125,9 +1263,19 @@ Section Prod.
           destruct (ops i) as [n|f]; [|exact C4].
           destruct C4 as [m [Ht Hr]]. exists m. split; [|exact Hr].
           pose proof (prod_once_apply s (EStep j) m (conj I P) Ht) as H. simpl in H. rewrite Es in H. exact H.
-    - simpl in Hg. destruct P as [I P].
+  Qed.
+
+  Lemma cold_apply s e : good_ev e -> cold_inv s -> cold_inv (apply_ev false ops s e).
+  Proof.
+    intros Hg C. destruct e as [j|t|j]; simpl.
+    - destruct (step false ops s j) as [s'|] eqn:Es; [eapply cold_step; eauto|exact C].
+    - destruct C as [P [G [C3 C4]]]. simpl in Hg. destruct P as [I P].
       split; [split; [apply inv_set_fs; exact I|exact P]|].
       split; [exact Hg|]. split; [exact C3|exact C4].
+    - destruct (compile_ev_cases false ops s j) as [[_ [E|[_ [_ E]]]]|[_ E]].
+      + rewrite E. exact C.
+      + rewrite E. exact C.
+      + eapply cold_step; eauto.
   Qed.
 
   Lemma cold_run evs : forall s, Forall good_ev evs -> cold_inv s -> cold_inv (run false ops s evs).
@@ -1144,15 +1292,16 @@ End Prod.
 
 (* ================================================================ fixed file tree *)
 
-Definition is_step_ev (e : ev) : Prop := match e with EStep _ => True | EFs _ => False end.
+Definition is_step_ev (e : ev) : Prop := match e with EStep _ | ECompile _ => True | EFs _ => False end.
 Definition no_edits (evs : list ev) : Prop := Forall is_step_ev evs.
 
 Lemma no_edits_fs debug ops evs : forall s, no_edits evs -> fs (run debug ops s evs) = fs s.
 Proof.
   induction evs as [|e evs IH]; intros s H; simpl; [reflexivity|].
   inversion H as [|? ? He Hr]; subst. rewrite (IH _ Hr).
-  destruct e as [i|t]; simpl in *; [|contradiction].
-  destruct (step debug ops s i) eqn:E; [eapply step_fs; eauto|reflexivity].
+  destruct e as [i|t|i]; simpl in *; [|contradiction|].
+  - destruct (step debug ops s i) eqn:E; [eapply step_fs; eauto|reflexivity].
+  - destruct (compile_ev_cases debug ops s i) as [[[E _] _]|[_ E]]; [exact E|eapply step_fs; eauto].
 Qed.
 
 Lemma no_edits_app_l a b : no_edits (a ++ b) -> no_edits a.
@@ -1200,7 +1349,7 @@ Lemma cold_start_fixed ops t0 evs :
 Proof.
   intros Hf Hd Hg Hn i r Hp.
   assert (HF : Forall good_ev evs).
-  { eapply Forall_impl; [|exact Hn]. intros [j|t]; simpl; tauto. }
+  { eapply Forall_impl; [|exact Hn]. intros [j|t|j]; simpl; tauto. }
   pose proof (cold_run ops Hf evs (init t0) HF (cold_init ops t0 Hg)) as [_ [_ [_ C4]]].
   specialize (C4 i r Hp). unfold result_fits in C4.
   destruct (ops i) as [n|f]; [|exact C4].
@@ -1326,8 +1475,12 @@ Section Debug.
   Proof.
     induction evs as [|e evs IH]; intros s Hn D; simpl; [exact D|].
     inversion Hn as [|? ? He Hr]; subst. apply IH; [exact Hr|].
-    destruct e as [i|t]; simpl in *; [|contradiction].
-    destruct (step true ops s i) eqn:E; [eapply dbg_step; eauto|exact D].
+    destruct e as [i|t|i]; simpl in *; [|contradiction|].
+    - destruct (step true ops s i) eqn:E; [eapply dbg_step; eauto|exact D].
+    - destruct (compile_ev_cases true ops s i) as [[_ [E|[_ [_ E]]]]|[_ E]].
+      + rewrite E. exact D.
+      + rewrite E. exact D.
+      + eapply dbg_step; eauto.
   Qed.
 End Debug.
 
@@ -1359,7 +1512,7 @@ Proof.
   intros Hw Hp Ho He Hd. unfold run. cbn [fold_left].
   rewrite (apply_step true ops s i _ (step_start_render_debug true ops s i n eq_refl Hp Ho Hw)).
   rewrite enter_load_fresh by (rewrite He; apply andb_false_r).
-  set (s1 := mkst (fs s) true (tpls s) (Some i) (upd (pcs s) i PLocked)).
+  set (s1 := mkst (fs s) true (tpls s) (Some i) (upd (pcs s) i PLocked) 0).
   assert (H1 : pcs s1 i = PLocked) by (unfold s1; simpl; apply upd_same).
   rewrite (apply_step true ops s1 i _ (step_locked true ops s1 i H1)).
   unfold finish_load. replace (fs s1) with (fs s) by reflexivity. rewrite Ho. simpl filter_of.
@@ -1397,7 +1550,7 @@ Proof.
   rewrite (apply_step false ops s1 j _ (step_aftercheck false ops s1 j H1 Hw)).
   replace (loaded s1) with false by (symmetry; exact Hl).
   rewrite enter_load_fresh by (simpl; rewrite Hl; reflexivity).
-  set (s2 := mkst (fs s1) true (tpls s1) (Some j) (upd (pcs s1) j PLocked)).
+  set (s2 := mkst (fs s1) true (tpls s1) (Some j) (upd (pcs s1) j PLocked) 0).
   assert (H2 : pcs s2 j = PLocked) by (unfold s2; simpl; apply upd_same).
   rewrite (apply_step false ops s2 j _ (step_locked false ops s2 j H2)).
   unfold finish_load. replace (fs s2) with t' by reflexivity. rewrite Ho. simpl filter_of. rewrite Hc.
@@ -1431,10 +1584,129 @@ Lemma no_deadlock_reach debug ops t0 evs i :
   (exists j s', wlock s = Some j /\ pcs s j = PLocked /\ step debug ops s j = Some s').
 Proof. simpl. apply no_deadlock, inv_reach. Qed.
 
-Lemma steps_bounded_reach debug ops t0 evs i :
-  eff_steps debug ops (init t0) evs i <= 4.
+Lemma steps_bounded_reach debug ops t0 evs i N :
+  length (tnames t0) <= N -> trees_le N evs ->
+  eff_steps debug ops (init t0) evs i <= N + 4.
 Proof.
-  pose proof (steps_bounded debug ops evs (init t0) i) as H. simpl in H. lia.
+  intros H0 HT.
+  pose proof (steps_boundedN debug ops N evs (init t0) i (inv_init t0) H0 HT) as H.
+  unfold rankN at 2 in H. simpl in H. lia.
+Qed.
+
+(* ---- while a load is in progress (at "load:locked" or at any file of the compile) every other call
+        waits; only the flag test of a production render can still be passed, and that render then
+        waits at the lookup *)
+Lemma waits_for_load debug ops t0 evs j i :
+  let s := reach debug ops t0 evs in
+  pcs s j = PLocked -> i <> j ->
+  step debug ops s i = None \/
+  (debug = false /\ pcs s i = PStart /\ (exists n, ops i = ORender n) /\
+   step debug ops s i = Some (set_pc s i PAfterLoad) /\
+   step debug ops (set_pc s i PAfterLoad) i = None).
+Proof.
+  simpl. intros Hj Hn. destruct (inv_reach debug ops t0 evs) as [I1 [I2 _]].
+  set (s := reach debug ops t0 evs) in *.
+  pose proof (proj1 (I1 j) Hj) as Hw. pose proof (I2 j Hw) as Hl.
+  unfold step at 1. unfold lock_free. rewrite Hw.
+  destruct (pcs s i) eqn:Epc; try (left; reflexivity).
+  - destruct (ops i) as [n|f] eqn:Eo; [|left; reflexivity].
+    destruct debug; [left; reflexivity|]. right.
+    split; [reflexivity|]. split; [reflexivity|]. split; [eauto|]. split.
+    + unfold step. rewrite Epc, Eo, Hl. reflexivity.
+    + unfold step, lock_free. simpl. rewrite upd_same. fold s. rewrite Hw. reflexivity.
+  - exfalso. apply I1 in Epc. congruence.
+Qed.
+
+(* ---- the compile steps refine the yield-point machine: every schedule reaches the state (but for the
+        progress counter) of the schedule in which each compile step is dropped, or, when it is the one
+        that ends the load, replaced by the plain step *)
+Fixpoint erase (debug : bool) (ops : nat -> op) (s : st) (evs : list ev) : list ev :=
+  match evs with
+  | [] => []
+  | e :: r =>
+    match e with
+    | ECompile i =>
+      match pcs s i with
+      | PLocked => if prog s <? load_calls debug (filter_of debug (ops i)) (fs s) then [] else [EStep i]
+      | _ => []
+      end
+    | _ => [e]
+    end ++ erase debug ops (apply_ev debug ops s e) r
+  end.
+
+Definition no_compile_ev (e : ev) : Prop := match e with ECompile _ => False | _ => True end.
+
+Lemma step_core debug ops s1 s2 i :
+  same_core s1 s2 ->
+  match step debug ops s1 i, step debug ops s2 i with
+  | Some a, Some b => same_core a b
+  | None, None => True
+  | _, _ => False
+  end.
+Proof.
+  destruct s1 as [f1 l1 t1 w1 p1 k1], s2 as [f2 l2 t2 w2 p2 k2]. unfold same_core. simpl.
+  intros [-> [-> [-> [-> ->]]]].
+  unfold step, lock_free, enter_load, finish_load, set_pc. simpl.
+  destruct (p2 i); try exact I.
+  - destruct (ops i); [destruct debug|]; destruct w2; try exact I;
+      try (destruct (l2 && is_empty _)); simpl; repeat split.
+  - destruct w2; [exact I|]. destruct l2; simpl; repeat split.
+  - destruct (compile_dir debug (filter_of debug (ops i)) f2); simpl; repeat split.
+  - destruct w2; [exact I|]. simpl; repeat split.
+Qed.
+
+Lemma compile_erase debug ops evs : forall s1 s2,
+  same_core s1 s2 ->
+  Forall no_compile_ev (erase debug ops s2 evs) /\
+  same_core (run debug ops s1 (erase debug ops s2 evs)) (run debug ops s2 evs).
+Proof.
+  induction evs as [|e evs IH]; intros s1 s2 HC; simpl; [split; [constructor|exact HC]|].
+  destruct e as [i|t|i].
+  - (* a plain step: kept *)
+    simpl. pose proof (step_core debug ops s1 s2 i HC) as G.
+    destruct (step debug ops s1 i) as [a|], (step debug ops s2 i) as [b|]; try contradiction.
+    + destruct (IH a b G) as [F S]. split; [constructor; [exact I|exact F]|exact S].
+    + destruct (IH s1 s2 HC) as [F S]. split; [constructor; [exact I|exact F]|exact S].
+  - simpl. assert (G : same_core (set_fs s1 t) (set_fs s2 t)).
+    { destruct HC as [_ [H1 [H2 [H3 H4]]]]. repeat split; assumption. }
+    destruct (IH _ _ G) as [F S]. split; [constructor; [exact I|exact F]|exact S].
+  - simpl apply_ev. unfold compile_ev.
+    destruct (pcs s2 i) eqn:Epc; try (simpl; apply IH; exact HC).
+    destruct (prog s2 <? load_calls debug (filter_of debug (ops i)) (fs s2)).
+    + simpl. apply IH. destruct HC as [H0 [H1 [H2 [H3 H4]]]]. repeat split; assumption.
+    + pose proof (step_core debug ops s1 s2 i HC) as G.
+      assert (E2 : step debug ops s2 i = Some (finish_load debug ops s2 i)) by (unfold step; rewrite Epc; reflexivity).
+      assert (E1 : step debug ops s1 i = Some (finish_load debug ops s1 i)).
+      { destruct HC as [_ [_ [_ [_ Hp]]]]. unfold step. rewrite Hp, Epc. reflexivity. }
+      rewrite E1, E2 in G.
+      destruct (IH _ _ G) as [F S]. simpl. rewrite E1. split; [constructor; [exact I|exact F]|exact S].
+Qed.
+
+Lemma compile_erase_reach debug ops t0 evs :
+  let evs' := erase debug ops (init t0) evs in
+  Forall no_compile_ev evs' /\ same_core (reach debug ops t0 evs') (reach debug ops t0 evs).
+Proof. simpl. apply compile_erase. apply same_core_refl. Qed.
+
+(* a compile step by itself: nothing changes but the counter, until the last file; on a tree that compiles
+   under the filter the load makes one step per selected template file *)
+Lemma compile_step_alone debug ops s i :
+  pcs s i = PLocked ->
+  let s' := apply_ev debug ops s (ECompile i) in
+  (prog s < load_calls debug (filter_of debug (ops i)) (fs s) ->
+     same_core s' s /\ prog s' = S (prog s)) /\
+  (load_calls debug (filter_of debug (ops i)) (fs s) <= prog s ->
+     s' = finish_load debug ops s i).
+Proof.
+  intros Hp. simpl. unfold compile_ev. rewrite Hp. split; intros H.
+  - apply Nat.ltb_lt in H. rewrite H. split; [repeat split|reflexivity].
+  - apply Nat.ltb_ge in H. rewrite H. reflexivity.
+Qed.
+
+Lemma load_calls_good debug f t :
+  good_under debug f t = true ->
+  load_calls debug f t = length (filter (fun nk => prefixb f (fst nk)) (tnames t)).
+Proof.
+  intros H. apply good_under_spec in H. destruct H as [_ H]. apply calls_upto_good. exact H.
 Qed.
 
 Lemma prod_once_reach ops t0 evs :
@@ -1588,6 +1860,28 @@ Example ex_once_vs_fresh :
   let ops := ops_of [ORender (B "x"); ORender (B "x")] in
   results (reach false ops (ex_bad_tree (KTpl (B "OLD"))) evs) 2 = [PDone (ROk (B "OLD")); PDone (ROk (B "OLD"))] /\
   results (reach true ops (ex_bad_tree (KTpl (B "OLD"))) evs) 2 = [PDone (ROk (B "OLD")); PDone (ROk (B "NEW"))].
+Proof. vm_compute. split; reflexivity. Qed.
+
+(* a render that arrives while the one load is compiling its third file passes the flag test, waits at
+   the lookup (its step is refused, twice), and answers from the finished set; the load of ex_tree makes
+   five FuncProvider calls *)
+Example ex_render_during_load :
+  let ops := ops_of [OLoad []; ORender (B "ab")] in
+  let evs := [EStep 0; ECompile 0; ECompile 0; ECompile 0; EStep 1; EStep 1; ECompile 0; EStep 1;
+              ECompile 0; ECompile 0; EStep 1] in
+  load_calls false [] ex_tree = 5 /\
+  prog (reach false ops ex_tree [EStep 0; ECompile 0; ECompile 0; ECompile 0]) = 3 /\
+  results (reach false ops ex_tree [EStep 0; ECompile 0; ECompile 0; ECompile 0; EStep 1; EStep 1; ECompile 0; EStep 1]) 2
+    = [PLocked; PAfterLoad] /\
+  results (reach false ops ex_tree evs) 2 = [PDone RLoaded; PDone (ROk (B "AB"))] /\
+  erase false ops (init ex_tree) evs = [EStep 0; EStep 1; EStep 1; EStep 1; EStep 0; EStep 1].
+Proof. vm_compute. repeat split; reflexivity. Qed.
+
+(* a load that fails at its second file: two FuncProvider calls, then the failure *)
+Example ex_failing_load_calls :
+  load_calls false [] (ex_bad_tree KBadJs) = 2 /\
+  results (reach false (ops_of [OLoad []]) (ex_bad_tree KBadJs) [EStep 0; ECompile 0; ECompile 0; ECompile 0]) 1
+    = [PDone RLoadPanic].
 Proof. vm_compute. split; reflexivity. Qed.
 
 Example ex_full_loads : full_loads (ops_of [ORender (B "a"); OLoad []; ORender (B "b")]).
